@@ -18,6 +18,24 @@ class C10Episode(Episode):
         w.snapshot_fn = snapshot
         self.on_quiet.append(C10Episode.judge)
         self.judged = set()
+        # an operation is in progress for as long as it holds the slot: a
+        # worker is only ever created by an operation that still holds it
+        # (a reply or a freed slot while the operation goes on in the
+        # background lets the next request run beside it)
+        w.kernel.on_spawn = self.on_spawn
+
+    def on_spawn(self, p):
+        w = self.world
+        a = w.arbiter
+        if a is None or w.start_future is None or \
+                not w.start_future.done():
+            return
+        if a._exclusive_running_command is None:
+            self.viol('spawn_outside_any_operation',
+                      'worker %d of %s was created while no state-changing '
+                      'operation held the slot (created from %s)'
+                      % (p.pid, p.marker, w.kernel.sender()[:6]),
+                      once='spawn_free', via=(w.kernel.sender() + ['?'] * 5)[4])
 
     def in_progress_at(self, b):
         """accepted waiting exclusive requests without reply when b was
